@@ -128,7 +128,13 @@ theorem absent_all_fail (m : FMap) (p : Str) (h : m.find? p = none) :
 theorem nodup_ops (m : FMap) (hk : FMap.NodupKeys m) (p : Str) (v : Entry) (buf : Bytes) :
     FMap.NodupKeys (m.insert p v) ∧ FMap.NodupKeys (m.erase p) ∧
     FMap.NodupKeys (memPublish m p buf) :=
-  ⟨FMap.nodup_insert m p v hk, FMap.nodup_erase m p hk, FMap.nodup_insert m p _ hk⟩
+  ⟨FMap.nodup_insert m p v hk, FMap.nodup_erase m p hk, by
+    unfold memPublish
+    split
+    · split
+      · exact FMap.nodup_insert m p _ hk
+      · exact hk
+    · exact hk⟩
 
 /-- the overlay's merge (the `HashSet` insertions) never yields a name twice -/
 theorem merge_nodup (names acc : List Str) (h : acc.Nodup) :
